@@ -15,6 +15,7 @@ FIRST_MISS = {
     'C15-C': 'missed', 'C15-D': 'missed', 'C16-C': 'missed', 'C18-C': 'missed', 'C18-D': 'missed',
     'C02-F': 'missed', 'C05-F': 'missed by C05 (C20: table lemma only)', 'C07-E': 'missed', 'C09-F': 'missed', 'C10-E': 'missed',
     'C12-E': 'harness killed by the deadlock detector (exit 2)', 'C12-F': 'missed', 'C17-E': 'missed',
+    'C03-G': 'missed', 'C03-H': 'missed', 'C07-G': 'missed', 'C07-H': 'missed', 'C12-G': 'harness killed by a runtime error in the scanner goroutine (exit 2)',
 }
 
 
